@@ -63,12 +63,21 @@ void ExecImpl::install_reporter() {
   trompeloeil::set_reporter(
       [gen](trompeloeil::severity s, char const* file, unsigned long line, std::string const& msg) {
         bool fatal = s == trompeloeil::severity::fatal;
-        if (g_cur) g_cur->cur_obs().reports.push_back(RawReport{gen, fatal, file ? file : "", line, msg});
+        if (g_cur) { g_cur->cur_obs().reports.push_back(RawReport{gen, fatal, file ? file : "", line, msg}); g_cur->on_report(fatal); }
         if (fatal) throw fatal_report{};
       },
       [gen](char const* msg) {
         if (g_cur) g_cur->cur_obs().oks.push_back(RawOk{gen, msg ? msg : ""});
       });
+}
+
+// user code inside the library's critical section: the reporter performs an operation of its own (e.g. tears the
+// fixture down on the first failure). Only on non-fatal reports (a fatal one unwinds anyway).
+void ExecImpl::on_report(bool fatal) {
+  if (fatal || !reporter_op || stop) return;
+  const Op* op = reporter_op; reporter_op = nullptr;
+  ++st.f_reentry; ++st.nested_ops;
+  step(*op, true);
 }
 
 // ---------------- construction ----------------
@@ -116,7 +125,14 @@ size_t ExecImpl::run_range(const std::vector<Op>& ops, size_t i, int level) {
   while (i < ops.size() && !stop) {
     const Op& op = ops[i];
     cur_op_index = static_cast<int>(i);
-    if (op.kind == OP_END_SCOPE) { if (level > 0) return i + 1; ++i; continue; }
+    if (op.kind == OP_END_SCOPE) { if (!shadow) ++st.ops[op.kind]; if (level > 0) return i + 1; ++i; continue; }
+    if (!shadow && op.kind == OP_UNWIND && level > 0) {
+      // the "test" aborts: an exception propagates out of every open scope
+      ++st.ops[op.kind]; ++st.f_abandon;
+      note("op unwind (exception leaves " + std::to_string(level) + " scope(s))"); fp += 'U';
+      unwind_resume = i + 1;
+      throw scope_abort{};
+    }
     if (!shadow && op.kind == OP_EXPECT && (op.a[8] & 2) && level < 8) {
       int shape = static_cast<int>(static_cast<unsigned>(op.a[0]) % static_cast<unsigned>(shape_count));
       if (shape_table[shape].sline) {
@@ -125,7 +141,10 @@ size_t ExecImpl::run_range(const std::vector<Op>& ops, size_t i, int level) {
         ++depth; ++st.ops[op.kind]; g_last_op_kind = op.kind; ctx_moved_mock = false; ctx_rejected_call = false;
         { std::ostringstream os; os << "op scoped_expect"; for (int k = 0; k < OP_ARGS; ++k) os << ' ' << op.a[k]; note(os.str()); fp += 'E'; }
         --depth;   // the body's operations are top-level operations themselves
-        op_expect(op, &body);
+        ++open_scopes;
+        try { op_expect(op, &body); }
+        catch (scope_abort const&) { --open_scopes; if (level > 0) throw; next = unwind_resume; ++open_scopes; }
+        --open_scopes;
         i = next;
         continue;
       }
@@ -175,6 +194,8 @@ void ExecImpl::step(const Op& op, bool nested) {
     case OP_MUTATE: op_mutate(op); break;
     case OP_WIDE: op_wide(op); break;
     case OP_END_SCOPE: op_end_scope(op); break;
+    case OP_UNWIND: op_unwind(op); break;
+    case OP_ASSIGN_SEQ: op_assign_seq(op); break;
     default: break;
   }
   if (!stop && !shadow && depth == 1) { observe_flags(); state_hashes.push_back(M.hash()); }
